@@ -168,6 +168,13 @@ func CheckC15(tier string) int {
 				// client heights drift with set-up blocks; registry-relevant content only
 				return false
 			}))
+			// the reference registry (from the governance history) is part of the state's identity: an operation the
+			// implementation silently ignores must not merge the state with the one before it
+			for _, l := range n.path {
+				if strings.HasPrefix(l, "register-") {
+					key += "|" + l
+				}
+			}
 			if seen[key] {
 				continue
 			}
